@@ -26,8 +26,9 @@ def ansatz_catalogue(tier: str):
             out.append((f"Z2SymmetryPreservingReal({n},{reps})", lambda n=n, r=reps: Z2SymmetryPreservingReal(n, r), {"parity", "real"}))
     for n in (2, 4) + ((6,) if big else ()):
         for d in (1, 2):
-            out.append((f"ParticleConservingU1({n},{d})", lambda n=n, d=d: ParticleConservingU1(n, d), {"N", "Sz"}))
-            out.append((f"ParticleConservingU2({n},{d})", lambda n=n, d=d: ParticleConservingU2(n, d), {"N", "Sz"}))
+            # the U1/U2 exchange gates act on neighbouring qubits of opposite spin: particle number only
+            out.append((f"ParticleConservingU1({n},{d})", lambda n=n, d=d: ParticleConservingU1(n, d), {"N"}))
+            out.append((f"ParticleConservingU2({n},{d})", lambda n=n, d=d: ParticleConservingU2(n, d), {"N"}))
     for n in (4, 6) + ((8,) if big else ()):
         for d in (1, 2):
             for pi in (False, True):
@@ -41,9 +42,11 @@ def ansatz_catalogue(tier: str):
             for sing in (False, True):
                 out.append((f"TrotterUCCSD({n},{e},singlet={sing})",
                             lambda n=n, e=e, s=sing: TrotterUCCSD(n, e, singlet_excitation=s), {"N", "Sz"}))
-        for n, e in ((4, 2), (6, 2)):
+        for n in (4, 6):
             for k in (1, 2):
-                out.append((f"KUpCCGSD({n},{e},k={k})", lambda n=n, e=e, k=k: KUpCCGSD(n, e, k=k), {"N", "Sz"}))
+                for sing in (False, True):
+                    out.append((f"KUpCCGSD({n},k={k},singlet={sing})",
+                                lambda n=n, k=k, s=sing: KUpCCGSD(n, k=k, singlet_excitation=s), {"N", "Sz"}))
     except ImportError:
         pass
     return out
@@ -111,6 +114,8 @@ def conserves(gs, wires, kinds, nparams, rng, tol=1e-9):
         dim = u.shape[0]
         for kind in kinds:
             if kind == "real":
+                if np.max(np.abs(u.imag)) > tol:
+                    return False
                 continue
             ws = [weight(kind, i, wires) for i in range(dim)]
             for r in range(dim):
@@ -120,7 +125,7 @@ def conserves(gs, wires, kinds, nparams, rng, tol=1e-9):
     return True
 
 
-def segment(gs, kinds, nparams, rng, max_wires=5):
+def segment(gs, kinds, nparams, rng, max_wires=4, max_pauli_wires=8):
     """greedy minimal conserving windows; a window that never closes within max_wires is returned as is"""
     blocks = []
     i = 0
@@ -133,7 +138,8 @@ def segment(gs, kinds, nparams, rng, max_wires=5):
                 if w not in wires:
                     wires.append(w)
             j += 1
-            if len(wires) > max_wires:
+            pauli_only = all(g[0] == "PauliRotation" for g in gs[i:j])
+            if len(wires) > (max_pauli_wires if pauli_only else max_wires):
                 break
             if conserves(gs[i:j], sorted(wires), kinds, nparams, rng):
                 done = True
